@@ -244,7 +244,21 @@ fn specs() -> Vec<Spec> {
         Spec { name: "extension type", bits: 16, registry: Some(&ia::EXTENSION_TYPE), probe: |v, _t| {
             let body = super::c05::valid_body_for(v as u16).map(|x| x.1).unwrap_or_else(|| vec![1, 2, 3]);
             let b = ext_bytes(v as u16, &body);
-            match parse_tls_extension(&b).map_err(err)?.1 { TlsExtension::Grease(t, _) => Ok(t as u32), e => Ok(TlsExtensionType::from(&e).0 as u32) }
+            let first = match parse_tls_extension(&b).map_err(err)?.1 { TlsExtension::Grease(t, _) => t as u32, e => TlsExtensionType::from(&e).0 as u32 };
+            // types without a decoder: the same type over bodies shaped like extensions the crate does not know (ECH, connection_id, ...),
+            // through the three dispatchers - the body selects nothing
+            if super::c05::valid_body_for(v as u16).is_none() {
+                for (bn, body) in super::c05::FUTURE_EXT_BODIES {
+                    let b = ext_bytes(v as u16, body);
+                    for (dn, p) in [("generic", parse_tls_extension as fn(&[u8]) -> IResult<&[u8], TlsExtension>), ("client", parse_tls_client_hello_extension), ("server", parse_tls_server_hello_extension)] {
+                        let got = match p(&b).map_err(|e| format!("{} dispatcher, {} body: {}", dn, bn, err(e)))?.1 { TlsExtension::Grease(t, _) => t as u32, e => TlsExtensionType::from(&e).0 as u32 };
+                        if got != first {
+                            return Err(format!("{} dispatcher, body shaped like {}: type tag {:#06x}", dn, bn, got));
+                        }
+                    }
+                }
+            }
+            Ok(first)
         } },
         Spec { name: "named group (supported_groups extension)", bits: 16, registry: Some(&ia::NAMED_GROUP), probe: |v, t| {
             let m = MExt::EllipticCurves(vec![t.u16(), v as u16, t.u16()]);
